@@ -7,10 +7,11 @@ BASELINE = "cd /repo && /venv/bin/python -m pytest -ra -q -p no:cacheprovider --
 def main():
     props = [json.loads(l) for l in open(os.path.join(V, 'properties.jsonl'))]
     checks, na = [], []
+    enabled = set(open(os.path.join(V, 'harness', 'manifest', 'ENABLED')).read().split())
     for p in props:
         pid = p['id']
         mf = os.path.join(V, 'harness', 'manifest', pid + '.json')
-        if os.path.exists(mf) and os.path.exists(os.path.join(V, 'harness', 'props', pid.lower() + '.py')) \
+        if pid in enabled and os.path.exists(mf) and os.path.exists(os.path.join(V, 'harness', 'props', pid.lower() + '.py')) \
                 and os.path.exists(os.path.join(V, 'coq', 'Props', pid + '.v')):
             c = json.load(open(mf))
             checks.append(dict(property_id=pid, quick_cmd='./check %s --tier quick' % pid, thorough_cmd='./check %s --tier thorough' % pid,
